@@ -14,6 +14,7 @@ from . import kani as K
 from . import lemma as L
 from . import registry as REG
 from . import witness as W
+from . import premise as P
 from .rustsrc import ExtractError
 
 VERIF = os.path.dirname(os.path.dirname(os.path.abspath(__file__)))
@@ -212,6 +213,27 @@ def check(pid, tier, seed, only_report=None):
                 failures.append(dict(obligation="Z:%s" % r["name"], props=[pid], message="lemma refuted (sat)", src=None,
                                      text=r.get("model", "")[:1500], kind="lemma", rendered=r.get("model", "")[:3000]))
             samples.append(dict(obligation="Z:%s" % r["name"], kind="lemma", text=r.get("statement", "")[:400], seconds=r["seconds"]))
+        # ---------------- P: premises of assumed dependency contracts (never counted as proved)
+        for name in prop.get("premises", []):
+            pr = P.run(REPO, name, REG.PREMISES[name])
+            backends.setdefault("premises", dict(checked=0, holding=0, note="hypotheses of ASSUMED dependency contracts, checked on the extracted text; not proof obligations"))
+            backends["premises"]["checked"] += 1
+            if pr["status"] == "holds":
+                backends["premises"]["holding"] += 1
+                if backends["premises"]["checked"] <= 2:
+                    samples.append(dict(obligation="P:%s" % name, kind="premise of an assumed contract (not a proof)", text=pr["detail"]))
+            elif pr["status"] == "lost":
+                tool_errors.append("[premise] %s: %s" % (name, pr["detail"]))
+            else:
+                found = W.search(REPO, [pr["oracle"]], seed) if pr["oracle"] else {}
+                wl = found.get(pr["oracle"])
+                if wl:
+                    failures.append(dict(obligation="P:%s" % name, props=REG.PREMISES[name]["props"], kind="premise", src=REG.PREMISES[name]["file"],
+                                         message="the assumed serde-derive contract no longer applies (%s) and the round trip fails" % pr["detail"],
+                                         text=pr["text"][:1500], rendered=pr["text"][:3000], cex_native=True,
+                                         cex="native oracle replay/witness.rs::%s (seed %d) against the real code:\n%s" % (pr["oracle"], seed, wl)))
+                else:
+                    tool_errors.append("[premise] %s: %s — the assumed contract no longer applies; the round-trip oracle found no failing input, so this is undecided, not a violation" % (name, pr["detail"]))
     finally:
         shutil.rmtree(work, ignore_errors=True)
 
